@@ -4,9 +4,26 @@ model is `Tahoe/Web/Authority.lean`, helper lemmas are in `Tahoe/Web/LemmasAutho
 
 PARTIAL: the web layer is modelled only as a dispatch table (traversal + the node methods each
 PUT / POST t=… / DELETE request invokes); the table is tied to `web/*.py` by the correspondence run.
-`serve true` is the table with the proposed repair of `ReplaceMeMixin` (parent checked before
-`client.create_mutable_file`); `serve false` is the code as it is, for which the statement is false
-(`asis_mutable_upload_counterexample`). -/
+`serve true` is the table with the repair of `ReplaceMeMixin` now in /repo (parent checked before
+`client.create_mutable_file`, commit 9a727df); `serve false` is the code before it, for which the statement is
+false (`asis_mutable_upload_counterexample`, `asis_existing_child_counterexample`).
+
+## Coverage of the statement
+
+| clause of the statement | theorem(s) for the model | tie to the code |
+|---|---|---|
+| a modifying request made through a **read-only capability** is refused and changes nothing | `readonly_cap_unchanged`, `readonly_cap_refused` (every request of the table, every path) | correspondence (status, phase, tree) + monitor (whole grid before/after) |
+| … through a **verify capability** | same two theorems (`capHandle` of a verify cap has no write key; the handler is `unknown`) | same |
+| … through a **path that passes through a read-only directory** | `readonly_refused_unchanged` (a proper prefix resolves read-only), `readonly_target_refused_unchanged` (the addressed node itself is the read-only one, POST forms incl. `t=relink` with any `to_dir=`) | same |
+| "is refused" | part of the four theorems; exception: the mkdir forms answered with the URI of an already existing directory (`Req.alreadyDoneForm`) — nothing to modify | status class compared |
+| "changes nothing on the grid" | part of the four theorems (`= g`: no object added, none altered) | share-file snapshot + logical tree, every RO request |
+| node layer: every modifying node method refuses a read-only node before any effect | `node_methods_refuse_readonly`, `move_child_to_needs_both_write_keys` (+ `or_guard_counterexample`: the seeded De Morgan slip C41-b) | dirnode.py / mutable/filenode.py guards transcribed; corpus cases C41-b/* |
+| web route `ReplaceMeMixin` (PUT / POST t=upload with format=sdmf/mdmf, new name or existing immutable child) | `mutable_format_upload_refused` (+ the two `asis_*` counterexamples: repaired defect 9a727df, seeded C41-c) | corpus cases fix-9a727df/*, C41-c/* |
+| the node the gateway builds for a cap has the cap's authority, whatever else is alive in the gateway (node cache) | `node_cache_preserves_authority`, `node_cache_history`, `readcap_never_yields_writeable_node` (+ `aliased_cache_counterexample`: seeded C41-a) | function-level correspondence (`cache` driver line vs `create_node_from_uri` sequences) + corpus C41-a/* |
+| **responses** made through a read-only capability never contain write-caps | `no_writecap_in_ro_response` (t=json, t=info, HTML listing, t=uri, t=readonly-uri), `no_writecap_below_ro` | `caps` driver line vs caps found in real bodies; monitor scans every RO response for write keys |
+| responses of *refused modifying* requests (error pages) | not covered by a theorem (error pages echo the request URL only) | monitor only (write-key scan of every response body) |
+| deep-check / manifest / check&repair, `when_done`, metadata `no-write`, `/uri` unlinked creation, private token area | not covered | check&repair through a read cap of a damaged mutable file: monitor only |
+-/
 namespace Tahoe.C41
 open Tahoe.Web
 
@@ -121,6 +138,114 @@ theorem asis_eq_fixed_without_mutable_format (g : Grid) (p : Handle) (n : Nat) (
 
 example : replaceWithUpload false exGrid ⟨1, true⟩ 9 { meth := .put, t := .none } =
     replaceWithUpload true exGrid ⟨1, true⟩ 9 { meth := .put, t := .none } := by decide
+
+/-! ### node layer and web routes the seeded changes went through -/
+
+/-- Every modifying node method of the table, applied to a node without the write key, is a refusal
+that leaves the grid untouched — whatever the arguments (also for `set_children`, which has no guard
+of its own, and `overwrite`, which relies on the backing file's assertion). -/
+theorem node_methods_refuse_readonly (g : Grid) (h : Handle) (hw : h.w = false) (n m : Nat) (c : Handle)
+    (cap : Cap) (kids : List (Nat × Link)) (ow : Repl) (mutbl : Bool) :
+    Refd (setNode g h n c ow) g ∧ Refd (setUri g h n cap ow) g ∧ Refd (setChildren g h kids ow) g ∧
+    Refd (deleteChild g h n) g ∧ Refd (deleteMissing g h) g ∧ Refd (addFile g h n ow) g ∧
+    Refd (createSubdirectory g h n kids mutbl ow) g ∧ Refd (moveChildTo g h n c m ow) g ∧ Refd (overwrite g h) g := by
+  refine ⟨?_, setUri_ro g h n cap ow hw, setChildren_ro g h kids ow hw, ?_, ?_, ?_, ?_, ?_, overwrite_ro g h hw⟩
+  · rw [setNode_ro g h n c ow hw]; exact refd_err g _
+  · rw [deleteChild_ro g h n hw]; exact refd_err g _
+  · rw [deleteMissing_ro g h hw]; exact refd_err g _
+  · rw [addFile_ro g h n ow hw]; exact refd_err g _
+  · rw [createSubdirectory_ro g h n kids mutbl ow hw]; exact refd_err g _
+  · rw [moveChildTo_ro g h n c m ow (Or.inl hw)]; exact refd_err g _
+
+example : Refd (setChildren exGrid ⟨1, false⟩ [(9, ⟨3, false⟩)] .yes) exGrid ∧
+    (setChildren exGrid ⟨1, true⟩ [(9, ⟨3, false⟩)] .yes).2 = .ok () := by
+  refine ⟨⟨by decide, by decide⟩, by decide⟩
+
+/-- `DirectoryNode.move_child_to` (behind POST t=relink / t=rename): the write key of **both** directories
+is needed — if either is missing the call is refused before the child is linked anywhere. -/
+theorem move_child_to_needs_both_write_keys (g : Grid) (src dst : Handle) (n m : Nat) (ow : Repl)
+    (h : src.w = false ∨ dst.w = false) : moveChildTo g src n dst m ow = (g, .err .notWriteable) :=
+  moveChildTo_ro g src n dst m ow h
+
+example : moveChildTo exGrid ⟨1, false⟩ 5 ⟨4, true⟩ 9 .yes = (exGrid, .err .notWriteable) ∧
+    moveChildTo exGrid ⟨1, true⟩ 5 ⟨4, false⟩ 9 .yes = (exGrid, .err .notWriteable) ∧
+    (moveChildTo exGrid ⟨1, true⟩ 5 ⟨4, true⟩ 9 .yes).2 = .ok () := by decide
+
+/-- NOT model code: `move_child_to` with the guard of the seeded change C41-b (`not (from_uri or to_uri)`,
+refusing only when *both* are read-only), to show what the conjunction protects. -/
+def moveChildToOrGuard (g : Grid) (h : Handle) (name : Nat) (np : Handle) (newName : Nat) (ow : Repl) :
+    Grid × R Unit :=
+  if !h.w && !np.w then (g, .err .notWriteable)
+  else match getChild? g h name with
+    | none => (g, .err .noSuchChild)
+    | some child =>
+      match setNode g np newName child ow with
+      | (g1, .err e) => (g1, .err e)
+      | (g1, .ok _) => deleteChild g1 h name
+
+/-- with that guard a relink out of a read-only directory into a writeable one is answered with an
+error but has linked the child into the destination -/
+theorem or_guard_counterexample :
+    (moveChildToOrGuard exGrid ⟨1, false⟩ 5 ⟨4, true⟩ 9 .yes).2 = .err .notWriteable ∧
+    entriesOf (moveChildToOrGuard exGrid ⟨1, false⟩ 5 ⟨4, true⟩ 9 .yes).1 4 = [(9, ⟨3, false⟩)] := by decide
+
+/-- `ReplaceMeMixin.replace_me_with_a_child / _formpost` reached from a placeholder (new name) or from the
+handler of an existing **immutable** child, with or without `format=sdmf|mdmf`: with a read-only parent
+it is refused and nothing is created. -/
+theorem mutable_format_upload_refused (g : Grid) (parent : Handle) (n : Nat) (r : Req) (node : Handle)
+    (hp : parent.w = false) (hn : node.w = false) :
+    Refd (renderPlaceholder true g parent n r) g ∧ Refd (renderFile true g node (some (parent, n)) r) g :=
+  ⟨renderPlaceholder_ro g parent n r hp,
+   renderFile_ro g node (some (parent, n)) r ⟨hn, by intro pp nm h; cases h; exact hp⟩⟩
+
+example : renderFile true exGrid ⟨3, false⟩ (some (⟨1, false⟩, 5)) { meth := .put, t := .none, mutableFmt := true }
+    = (exGrid, .err .notWriteable) := by decide
+
+/-- the code before the repair (and the seeded change C41-c, which removed the check from the mixin):
+`PUT /uri/<read-only dir>/<existing immutable child>?format=sdmf` is answered with an error after a
+new mutable file has been put on the grid -/
+theorem asis_existing_child_counterexample :
+    resolve exGrid (capHandle exGrid ⟨1, .read⟩) [5] = some ⟨3, false⟩ ∧
+    (serve false exGrid ⟨1, .read⟩ [5] { meth := .put, t := .none, mutableFmt := true }).2 = .err .notWriteable ∧
+    (serve false exGrid ⟨1, .read⟩ [5] { meth := .put, t := .none, mutableFmt := true }).1 ≠ exGrid ∧
+    serve true exGrid ⟨1, .read⟩ [5] { meth := .put, t := .none, mutableFmt := true } = (exGrid, .err .notWriteable) := by
+  decide
+
+/-! ### the gateway's node cache -/
+
+/-- `NodeMaker.create_from_cap`: as long as every cached node is the one its own key builds, the node
+handed out for a cap is the node that cap string alone builds — whatever else is cached — and the
+cache stays that way. -/
+theorem node_cache_preserves_authority (g : Grid) (c : NodeCache) (d : Bool) (cap : Cap) (hc : CacheOK g c) :
+    (createFromCap g c d cap).1 = capHandle g cap ∧ CacheOK g (createFromCap g c d cap).2 :=
+  createFromCap_ok g c d cap hc
+
+/-- for every history of lookups and garbage collections starting from the empty cache, every node
+handed out is `capHandle` of some presented cap … -/
+theorem node_cache_history (g : Grid) (ops : List CacheOp) :
+    ∀ h ∈ runCache g [] ops, ∃ cap, h = capHandle g cap :=
+  runCache_ok g ops [] (by intro k h hm; cases hm)
+
+/-- … and such a node is writeable only if the cap presented is a write cap of a mutable object -/
+theorem readcap_never_yields_writeable_node (g : Grid) (c : NodeCache) (d : Bool) (cap : Cap)
+    (hc : CacheOK g c) (hcap : cap.auth ≠ .write) : (createFromCap g c d cap).1.w = false := by
+  rw [(createFromCap_ok g c d cap hc).1]
+  cases hcap' : cap.auth <;> simp_all [capHandle]
+
+example : runCache exGrid [] [.create false ⟨1, .write⟩, .create false ⟨1, .read⟩, .collect (fun _ => false),
+      .create false ⟨1, .read⟩, .create false ⟨1, .write⟩]
+    = [⟨1, true⟩, ⟨1, false⟩, ⟨1, false⟩, ⟨1, true⟩] := by decide
+
+/-- the invariant is needed: a cache in which the writeable node is also filed under the read cap (the
+seeded change C41-a) hands a writeable node to the holder of the read cap -/
+theorem aliased_cache_counterexample :
+    (createFromCap exGrid [(⟨false, ⟨1, .read⟩⟩, ⟨1, true⟩)] false ⟨1, .read⟩).1 = ⟨1, true⟩ ∧
+    ¬ CacheOK exGrid [(⟨false, ⟨1, .read⟩⟩, ⟨1, true⟩)] := by
+  refine ⟨by decide, ?_⟩
+  intro h
+  have := h ⟨false, ⟨1, .read⟩⟩ ⟨1, true⟩ (List.mem_singleton.2 rfl)
+  revert this
+  decide
 
 /-! ### responses through a read-only node contain no write cap -/
 
